@@ -88,7 +88,15 @@ func expect(s *script, keHost string) expectation {
 			if len(r.Body) == 2 {
 				aead = int(r.Body[0])<<8 | int(r.Body[1])
 			} else {
+				// the body is a list of 16-bit identifiers; a reply that lists more than one (or has an odd
+				// trailing byte) is malformed, but if the list names algorithm 15 a client that takes it as the
+				// selection has not broken the statement: success is admissible, not required
 				questionable = true
+				for i := 0; i+2 <= len(r.Body); i += 2 {
+					if r.Body[i] == 0 && r.Body[i+1] == 15 {
+						aead = 15
+					}
+				}
 			}
 		case netlab.RecCookie:
 			e.cookies = append(e.cookies, r.Body)
@@ -231,7 +239,20 @@ func genScript(t *rapid.T) *script {
 		hasAEAD = false
 	}
 	if hasAEAD {
-		recs = append(recs, netlab.Rec{Type: netlab.RecAEAD, Critical: true, Body: netlab.U16(aead)})
+		body := netlab.U16(aead)
+		// a list of identifiers instead of the single one a server should send: with 15 first, 15 second, or 15
+		// followed by a stray byte (success admissible); or a list without 15 (success forbidden)
+		switch rapid.IntRange(0, 19).Draw(t, "aead-list") {
+		case 0:
+			body = append(netlab.U16(15), netlab.U16(rapid.SampledFrom([]uint16{14, 16, 17}).Draw(t, "aead2"))...)
+		case 1:
+			body = append(netlab.U16(rapid.SampledFrom([]uint16{14, 16, 17}).Draw(t, "aead2")), netlab.U16(15)...)
+		case 2:
+			body = append(netlab.U16(15), rapid.Byte().Draw(t, "stray"))
+		case 3:
+			body = []byte{0x0f, 0x00, 0x0f, 0x10} // 15 only at an odd position
+		}
+		recs = append(recs, netlab.Rec{Type: netlab.RecAEAD, Critical: true, Body: body})
 	}
 	if rapid.Bool().Draw(t, "has-server") {
 		recs = append(recs, netlab.Rec{Type: netlab.RecServer, Body: []byte(rapid.SampledFrom([]string{netlab.Addr(2).String(), netlab.Addr(3).String(), "127.0.0.9"}).Draw(t, "server"))})
